@@ -113,86 +113,123 @@ def St.repoint (s : St) (n : Bytes) (nl : Loc) (e : Exp) : St :=
       | none => a :: go r
   go s
 
-/-- run `body` in a fresh child scope with location `l` and attach the result to the parent -/
-def St.child (s : St) (l : Loc) (init : List Var) (body : St → St) : St :=
-  match body ({ vars := init } :: s) with
+/-- close the child scope opened on top of `orig`: attach it (with location `l`) to its parent -/
+def St.close (after orig : St) (l : Loc) : St :=
+  match after with
   | c :: rest => St.addSub rest (.mk l c.vars c.subs)
-  | [] => s
+  | [] => orig
+
+/-- keys that are not traversed: an absent key (positional field) and a string constant -/
+def skipKey : Exp → Bool
+  | .noKey => true
+  | .str .. => true
+  | _ => false
+
+def nameOf : Exp → Option (Bytes × Loc)
+  | .name n nl => some (n, nl)
+  | _ => none
+
+def blockLoc : Block → Loc
+  | .mk _ _ bl => bl
+
+/-- open a child scope with the initial variables `init` -/
+def St.open (s : St) (init : List Var) : St := { vars := init } :: s
 
 mutual
 /-- traverse an expression: only function bodies create scopes -/
-partial def cgExp (s : St) : Exp → St
+def cgExp (s : St) : Exp → St
   | .unop _ e _ => cgExp s e
   | .binop _ x y _ => cgExp (cgExp s x) y
-  | .table ks vs _ =>
-    (ks.zip vs).foldl (fun s (k, v) => cgExp (match k with | .noKey => s | .str .. => s | k => cgExp s k) v) s
+  | .table ks vs _ => cgFields s ks vs
   | .func f => cgFunc s f
   | .parens e _ => cgExp s e
   | .index p k _ => cgExp (cgExp s p) k
-  | .call p _ args _ => args.foldl cgExp (cgExp s p)
+  | .call p _ args _ => cgExps (cgExp s p) args
   | _ => s
+termination_by e => sizeOf e
+/-- expressions left to right -/
+def cgExps (s : St) : List Exp → St
+  | [] => s
+  | e :: es => cgExps (cgExp s e) es
+termination_by es => sizeOf es
+/-- table fields: key (unless absent or a string constant) then value, field by field -/
+def cgFields (s : St) : List Exp → List Exp → St
+  | k :: ks, v :: vs =>
+    cgFields (cgExp (if skipKey k then s else cgExp s k) v) ks vs
+  | _, _ => s
+termination_by ks vs => sizeOf ks + sizeOf vs
 /-- a function: main scope with the parameters, then the body -/
-partial def cgFunc (s : St) : FuncBody → St
+def cgFunc (s : St) : FuncBody → St
   | .mk _ _ ps _ _ body l =>
-    s.child l (ps.map fun (n, pl) => { name := n, loc := pl, ref := .none, isParam := true }) (fun c => cgBlock c body)
-partial def cgBlock (s : St) : Block → St
+    St.close (cgBlock (s.open (ps.map fun (n, pl) => { name := n, loc := pl, ref := .none, isParam := true })) body) s l
+termination_by f => sizeOf f
+def cgBlock (s : St) : Block → St
   | .mk stats ret _ =>
-    let s := stats.foldl cgStat s
     match ret with
-    | some es => es.foldl cgExp s
-    | none => s
-partial def cgStat (s : St) : Stat → St
-  | .do_ b l => s.child l [] (fun c => cgBlock c b)
-  | .while_ c b l => (cgExp s c).child l [] (fun x => cgBlock x b)
-  | .repeat_ b c l => s.child l [] (fun x => cgExp (cgBlock x b) c)
-  | .if_ cs bs _ =>
-    (cs.zip bs).foldl (fun s (c, b) =>
-      let s := cgExp s c
-      match b with
-      | .mk _ _ bl => s.child bl [] (fun x => cgBlock x b)) s
+    | some es => cgExps (cgStats s stats) es
+    | none => cgStats s stats
+termination_by b => sizeOf b
+def cgStats (s : St) : List Stat → St
+  | [] => s
+  | st :: r => cgStats (cgStat s st) r
+termination_by ss => sizeOf ss
+/-- if / elseif / else: condition i, then block i in a scope of its own -/
+def cgIf (s : St) : List Exp → List Block → St
+  | c :: cs, b :: bs =>
+    let s1 := cgExp s c
+    cgIf (St.close (cgBlock (s1.open []) b) s1 (blockLoc b)) cs bs
+  | _, _ => s
+termination_by cs bs => sizeOf cs + sizeOf bs
+/-- assignment: for each target i, expression i first, then the target (re-pointing for bare names) -/
+def cgAssign (s : St) : List Exp → List Exp → St
+  | [], _ => s
+  | v :: vs, [] => cgAssign (if (nameOf v).isSome then s else cgExp s v) vs []
+  | v :: vs, e :: es =>
+    let s1 := cgExp s e
+    cgAssign (match nameOf v with
+      | some (n, nl) => s1.repoint n nl e
+      | none => cgExp s1 v) vs es
+termination_by vs es => sizeOf vs + sizeOf es
+/-- local declaration: expression i, then name i; surplus names refer to a trailing call or are empty -/
+def cgLocal (s : St) (lastCall : Option Loc) : List (Bytes × Loc × Nat) → List Exp → St
+  | ns, [] =>
+    ns.foldl (fun s (n, nl, _) =>
+      match lastCall with
+      | some cl => s.addVar { name := n, loc := nl, ref := .call cl }
+      | none => s.addVar { name := n, loc := nl, ref := .none, expEmpty := true }) s
+  | [], e :: es => cgLocal (cgExp s e) lastCall [] es
+  | (n, nl, _) :: ns, e :: es =>
+    cgLocal ((cgExp s e).addVar { name := n, loc := nl, ref := refKindOf e, expEmpty := isNilExp e }) lastCall ns es
+termination_by ns es => sizeOf ns + sizeOf es
+def cgStat (s : St) : Stat → St
+  | .do_ b l => St.close (cgBlock (s.open []) b) s l
+  | .while_ c b l =>
+    let s1 := cgExp s c
+    St.close (cgBlock (s1.open []) b) s1 l
+  | .repeat_ b c l => St.close (cgExp (cgBlock (s.open []) b) c) s l
+  | .if_ cs bs _ => cgIf s cs bs
   | .fornum v vl i lim st b l =>
-    s.child l [] (fun x =>
-      let x := cgExp (cgExp (cgExp x i) st) lim
-      cgBlock (x.addVar { name := v, loc := vl, ref := .none }) b)
+    -- the step is visited before the limit
+    let x := cgExp (cgExp (cgExp (s.open []) i) st) lim
+    St.close (cgBlock (x.addVar { name := v, loc := vl, ref := .none }) b) s l
   | .forin ns es b l =>
-    s.child l [] (fun x =>
-      let x := es.foldl cgExp x
-      let x := ns.foldl (fun x (n, nl) => x.addVar { name := n, loc := nl, ref := .none }) x
-      cgBlock x b)
-  | .assign vars exps _ =>
-    -- for each target i: expression i first, then the target
-    let rec go (s : St) : List Exp → List Exp → St
-      | [], _ => s
-      | v :: vs, es =>
-        let s := match es with | e :: _ => cgExp s e | [] => s
-        let s := match v, es with
-          | .name n nl, e :: _ => s.repoint n nl e
-          | .name _ _, [] => s
-          | v, _ => cgExp s v
-        go s vs es.tail
-    go s vars exps
+    let x := cgExps (s.open []) es
+    let x := ns.foldl (fun x (n, nl) => x.addVar { name := n, loc := nl, ref := .none }) x
+    St.close (cgBlock x b) s l
+  | .assign vars exps _ => cgAssign s vars exps
   | .local_ names exps _ =>
     let nE := exps.length
     let lastCall : Option Loc :=
       match exps.getLast? with
       | some (.call _ _ _ l) => if nE ≤ names.length then some l else none
       | _ => none
-    let rec goL (s : St) : List (Bytes × Loc × Nat) → List Exp → St
-      | ns, [] =>
-        ns.foldl (fun s (n, nl, _) =>
-          match lastCall with
-          | some cl => s.addVar { name := n, loc := nl, ref := .call cl }
-          | none => s.addVar { name := n, loc := nl, ref := .none, expEmpty := true }) s
-      | [], e :: es => goL (cgExp s e) [] es
-      | (n, nl, _) :: ns, e :: es =>
-        let s := cgExp s e
-        goL (s.addVar { name := n, loc := nl, ref := refKindOf e, expEmpty := isNilExp e }) ns es
-    goL s names exps
+    cgLocal s lastCall names exps
   | .localfn n nl f _ =>
     let fl := match f with | .mk _ _ _ _ _ _ l => l
     cgFunc (s.addVar { name := n, loc := nl, ref := .func fl }) f
   | .callstat e => cgExp s e
   | _ => s
+termination_by st => sizeOf st
 end
 
 /-- the scope tree of a file: main scope with the chunk's block Loc -/
